@@ -873,7 +873,7 @@ def parse_host(host):
         host = host[1:-1]
         try:
             inet_pton(socket.AF_INET6, host)
-        except OSError as se:
+        except (OSError, ValueError) as se:  # ValueError: embedded NUL
             raise URLParseError(f'invalid IPv6 host: {host!r} ({se!r})')
         except UnicodeEncodeError:
             pass  # TODO: this can't be a real host right?
@@ -882,7 +882,7 @@ def parse_host(host):
             return family, host
     try:
         inet_pton(socket.AF_INET, host)
-    except (OSError, UnicodeEncodeError):
+    except (OSError, UnicodeEncodeError, ValueError):
         family = None  # not an IP
     else:
         family = socket.AF_INET
